@@ -8,5 +8,6 @@ def run(ctx):
     ctx.harness("./cmd/c20")
     ctx.diff(area="natsort", driver="drv_c20", n={"quick": 150000, "thorough": 6000000},
              trivial=lambda l, o: False,
-             theorem="C20.cmp_antisymm / cmp_trans / cmp_zero_iff / cmp_key / sortAsc_sorted (model = spec); "
+             theorem="C20.cmp_antisymm / cmp_trans / cmp_zero_iff / cmp_key / digits_numeric / digit_before_nondigit / "
+                     "proper_prefix_first / bytes_bytewise(_ci) / sortAsc_sorted (model = spec); "
                      "impl != model on this input")
